@@ -5,6 +5,7 @@ mod c04;
 mod c05;
 mod c03;
 mod c11;
+mod c11for;
 mod smoke;
 pub mod util;
 
